@@ -1630,6 +1630,10 @@ C20_SETTERS = [
     ("setTimeout", [1], {}, "accept"), ("setTimeout", [4], {}, "accept"), ("setTimeout", [1024], {}, "accept"),
     ("setTimeout", [0], {}, "reject"), ("setTimeout", [1025], {}, "reject"), ("setTimeout", [-1], {}, "reject"),
     ("setTimeout", [["@none"]], {}, "reject_any"),
+    # just outside the interval on both sides, for callers that compute the value
+    ("setWindowSize", [["@float", 0.5]], {}, "reject"), ("setWindowSize", [["@float", 0.999]], {}, "reject"),
+    ("setWindowSize", [["@float", 16.5]], {}, "reject"), ("setTimeout", [["@float", 0.5]], {}, "reject"),
+    ("setTimeout", [["@float", 1024.5]], {}, "reject"),
     ("setBandwith", [["@float", 1e-9]], {}, "accept"), ("setBandwith", [1, 1], {}, "accept"), ("setBandwith", [["@float", 1e12], 2], {}, "accept"),
     ("setBandwith", [10000], {"factor": 4}, "accept"),
     ("setBandwith", [0], {}, "reject"), ("setBandwith", [-1], {}, "reject"), ("setBandwith", [1, 0], {}, "reject"),
